@@ -71,6 +71,17 @@ def SolverSpec (solve : Program → Option Assignment) : Prop :=
 
 def OracleSpec (ask : Oracle) : Prop := ∀ k, SolverSpec (ask k)
 
+/-- The same, demanded only of programs that HAVE variables.  This is all that is needed of the solver since the code
+    returns early when `p_vars` is empty — and all python-mip offers: for a model without variables `optimize()` prints
+    "Model has no variables. Nothing to optimize." and answers status OTHER with `x = None` although the program is feasible. -/
+def SolverSpecNE (solve : Program → Option Assignment) : Prop :=
+  ∀ P : Program, P.vars ≠ [] →
+    (∀ a, solve P = some a →
+      P.feasible a = true ∧ ∀ b : Assignment, P.feasible b = true → P.objective b ≤ P.objective a) ∧
+    (solve P = none → ∀ b : Assignment, P.feasible b = false)
+
+def OracleSpecNE (ask : Oracle) : Prop := ∀ k, SolverSpecNE (ask k)
+
 /-! ### the knapsack program shared by all callers -/
 
 /-- variables for `l`, `maximize Σ value·x`, `Σ cost·x <= budget` -/
@@ -89,13 +100,17 @@ def availableBudget (I : Inst) (init : List Pid) : Rat := I.budget - costOf I.co
 def baseProgram (I : Inst) (score : Pid → Rat) (init : List Pid) : Program :=
   knapProgram I.cost score (freeVars I init) (availableBudget I init)
 
-/-- resolute call: one `optimize()`, the variables at one followed by the initial allocation.
+/-- resolute call: `if not p_vars: return BudgetAllocation(list(initial_budget_allocation))` — no project left to decide,
+    the solver is not called (python-mip refuses a model without variables: status OTHER, `x = None`); otherwise one
+    `optimize()`, the variables at one followed by the initial allocation.
     (`none` from the solver: the code reads `x = None` and raises TypeError.) -/
 def resolute (solve : Program → Option Assignment) (I : Inst) (score : Pid → Rat) (init : List Pid) :
     Except Err (List Pid) :=
-  match solve (baseProgram I score init) with
-  | none => .error .type
-  | some a => .ok (partialAlloc (freeVars I init) a ++ init)
+  if (freeVars I init).isEmpty then .ok init
+  else
+    match solve (baseProgram I score init) with
+    | none => .error .type
+    | some a => .ok (partialAlloc (freeVars I init) a ++ init)
 
 /-- `mip_model += xsum(p_vars[p] * score[p] for p in p_vars) == opt_value` -/
 def optConstr (vars : List Pid) (score : Pid → Rat) (opt : Rat) : Constr :=
@@ -143,13 +158,15 @@ def loop (ask : Oracle) : Nat → Nat → Program → List Pid → List (List Pi
 
 /-- the irresolute call with explicit fuel; the result lists the PARTIAL allocations in discovery order -/
 def irresoluteRunFuel (ask : Oracle) (I : Inst) (score : Pid → Rat) (init : List Pid) (fuel : Nat) : Run :=
-  match ask 0 (baseProgram I score init) with
-  | none => { programs := [baseProgram I score init], result := .error .type }
-  | some a =>
-    loop ask fuel 1
-      ((baseProgram I score init).addConstrs
-        [optConstr (freeVars I init) score ((baseProgram I score init).objective a)])
-      (partialAlloc (freeVars I init) a) [partialAlloc (freeVars I init) a] [baseProgram I score init]
+  if (freeVars I init).isEmpty then { programs := [], result := .ok [[]] }   -- `if not p_vars: return [outcome]`, no solver call
+  else
+    match ask 0 (baseProgram I score init) with
+    | none => { programs := [baseProgram I score init], result := .error .type }
+    | some a =>
+      loop ask fuel 1
+        ((baseProgram I score init).addConstrs
+          [optConstr (freeVars I init) score ((baseProgram I score init).objective a)])
+        (partialAlloc (freeVars I init) a) [partialAlloc (freeVars I init) a] [baseProgram I score init]
 
 /-- fuel = number of 0/1 assignments of the variables -/
 def irresoluteRun (ask : Oracle) (I : Inst) (score : Pid → Rat) (init : List Pid) : Run :=
